@@ -1036,6 +1036,15 @@ def gen_phys(tier, rng):
             f = rng.choice(factors)
             q = Fraction(rng.randint(-(1 << 20) if signed else 0, 1 << 20)) + rng.choice([0, Fraction(1, 2), Fraction(3, 8)])
             yield f"phys {mk_store(rng, t, rand_raw_bytes(rng, w, 0))} {t} {fr_s(f)} set {fr_s(q * f)}"
+    # quotients that a double still holds exactly but where adding 0.5 in floating point goes wrong: odd integers
+    # between 2^52 and 2^53, and the largest double below one half
+    for t in (0x1B, 0x15, 0x19, 0x13):
+        w, signed = SPEC[t]
+        for q in (Fraction((1 << 52) + 1), Fraction((1 << 53) - 1), Fraction((1 << 52) + 12345 * 2 + 1),
+                  Fraction((1 << 53) - 1, 1 << 54), Fraction(3 * (1 << 50) + 1, 1)) + \
+                ((Fraction(-((1 << 52) + 1)), Fraction(-((1 << 53) - 1), 1 << 54)) if signed else ()):
+            for kind in ("phys", "physf"):
+                yield f"{kind} {mk_store(rng, t, bytes(w // 8))} {t} 1/1 set {fr_s(q)}"
     for t in (0x06, 0x03):
         yield f"phys d:0a00 {t} 0/1 set 1/1"
         yield f"physf d:0a00 {t} 0/1 set 1/1"
